@@ -1,2 +1,9 @@
 #!/bin/bash
+set -eu
+export GOFLAGS=-mod=mod GOPROXY=off GOSUMDB=off GOTOOLCHAIN=local
+V="${VERIF_DIR:-/verif}"
+R="${VERIF_REPO:-/repo}"
+mkdir -p "$V/.build"
+# the real command-line binary (uninstrumented) for the cli cases
+(cd "$R" && go build -o "$V/.build/gedcom-bin-c19" ./cmd/gedcom)
 exec "$(dirname "$0")/../../e1/build.sh" c19 "$1"
